@@ -304,13 +304,9 @@ def run(ck):
         # 1. design
         ck.laws("BoolTree_Laws", label="Laws:BoolTree_Laws", timeout=300)
         if ck.quick:
-            ck.mc("BoolTree_MC", cfg_text=mc_cfg(3, 2, "FALSE", 2), workers=4, timeout=300, label="MC:BoolTree_MC depth2 basic siblings")
+            ck.mc("BoolTree_MC", cfg_text=mc_cfg(3, 2, '"basic"', 2), workers=4, timeout=300, label="MC:BoolTree_MC depth2 basic siblings")
         else:
-            ck.mc("BoolTree_MC", cfg_text=mc_cfg(3, 2, "TRUE", 2), workers=4, timeout=840, label="MC:BoolTree_MC depth2 rich siblings")
-            sim = tlc.run("BoolTree_MC", cfg_text=mc_cfg(3, 3, "TRUE", 2), simulate="num=600", depth=5, workers=2, timeout=700)
-            ck.add_mc("Simulate:BoolTree_MC depth3 num=600", sim)
-            if sim.violated:
-                raise tlc.MachineryError(f"BoolTree_MC simulation violates {sim.violated}")
+            ck.mc("BoolTree_MC", cfg_text=mc_cfg(3, 2, '"rich"', 2), workers=4, timeout=840, label="MC:BoolTree_MC depth2 rich siblings")
         # 2. spec -> code
         n = 0
         for nleaves, wide, both in ((3, "FALSE", False),) if ck.quick else ((3, "FALSE", True), (2, "TRUE", False)):
